@@ -531,6 +531,12 @@ def run_standard(spec, tier, seed, replay=None):
         cov["facts"] = log.strip().splitlines()
         if not ok:
             rep.broken_obligation("facts translator: " + log.strip()[:400])
+            # the committed baseline of the rejected generators' output is put in
+            # place so that the SEARCH for a concrete failing input still has a
+            # model to run (the rejection above is reported whatever it finds)
+            failed = re.findall(r"^FACTS-UNSUPPORTED (\w+):", log, re.M)
+            rc_b, out_b = sh([sys.executable, os.path.join(ROOT, "tools", "facts.py"), "--restore-baseline"] + failed, timeout=60)
+            cov["facts_baseline_used_for_search"] = out_b.strip()
     pr = check_props(pid, allowed_axioms=spec.get("allowed_axioms", frozenset()))
     cov.update({"obligations": pr["obligations"], "discharged": pr["discharged"], "theorems": pr["theorems"],
                 "axioms": pr.get("axioms", [])})
